@@ -236,4 +236,6 @@ def targets(tier='quick'):
         # (exception atomicity of this step is C14's clause, with its open finding; here: which step/field the propagators get)
         t.keep = lambda name: name.startswith(('mfb/uses-current-step', 'mfb/step-post', 'unexpected-exception'))
         T.append(t)
+    from . import prep
+    T += [t for t in prep.targets(PROP, lambda ob: {'func': 'field_free_reduces_to_tempo', 'inputs': {'obligation': ob['name']}}) if 'MeanField' in t.name]
     return T
